@@ -92,7 +92,7 @@ def run_case(case, ctx):
             data[: 2 * w] = np.round(data[: 2 * w] * 2)
             int_head = 2 * w
     int_head = locals().get("int_head", 0)
-    det = PCACD(**gen.maybe_numpy(kw, case, ctx))
+    det = gen.construct(PCACD, kw, case, ctx)
     sh = Shadow(lambda: PCACDModel(**kw), lambda m: m.state)
     ctx.count("scaling_on_cases" if kw["online_scaling"] else "scaling_off_cases")
     drifts = 0
